@@ -1,6 +1,6 @@
 """C13 configuration for ./check (see checks/propcfg.py for the keys)."""
 CFG = {
-    "modules": ["VaxisModel.Props.C13"],
+    "modules": ["VaxisModel.Props.C13", "VaxisModel.Props.C13Body", "VaxisModel.Props.C13Ext"],
     "extractors": ["C09", "C13"],
     "drivers": ["C13"],
     "trivial_prefix": ("-|-|", "-|-"),
